@@ -286,7 +286,7 @@ func main() {
 	budget := 50 * time.Second
 	if r.Thorough() {
 		budget = 13 * time.Minute
-		debug.SetMemoryLimit(2560 << 20) // the set of distinct cases alone takes several hundred MiB
+		debug.SetMemoryLimit(1792 << 20) // the set of distinct cases alone takes several hundred MiB
 	}
 	if s := os.Getenv("VERIF_C20_BUDGET_S"); s != "" {
 		if v, err := strconv.Atoi(s); err == nil {
